@@ -400,6 +400,14 @@ def run(repo: Repo, chk: Check, thorough: bool = False) -> None:
                        f'`{norm(c)}` tests for {len(c.args[0].value)} character(s) but `{norm(x)}` replaces {k}: the `$` that stands for the name is only expanded '
                        'behind that prefix - `library/os.path.html#module-$` (every module entry Sphinx writes) keeps its `$` and resolves to an anchor that '
                        'does not exist', repo.loc(gl.mod, c))
+    # the abbreviation is a SUFFIX of the location (`...#module-$`): recognising it by equality with a whole component (`anchor == '$'`) is the same defect
+    # in another spelling
+    for cmp_ in [x for x in gl.walk() if isinstance(x, ast.Compare) and len(x.ops) == 1 and isinstance(x.ops[0], (ast.Eq, ast.NotEq)) and
+                 any(isinstance(o, ast.Constant) and isinstance(o.value, str) and o.value.endswith('$') for o in [x.left] + x.comparators)]:
+        n6 += 1
+        chk.ob('R17.6', 'pydoctor.sphinx.SphinxInventory.getLink :: the `$` abbreviation is recognised as a suffix', False,
+               f'`{norm(cmp_)}` only recognises the marker when it is the whole anchor: `library/os.path.html#module-$` (every module entry Sphinx writes) keeps its `$` '
+               'and resolves to an anchor that does not exist', repo.loc(gl.mod, cmp_))
     if n6 < 1:
         raise AnalysisError('R17.6: the `$` expansion of getLink (endswith + slice) was not found')
     chk.require('R17.6', 1)
